@@ -165,7 +165,7 @@ def check_version_codec(ctx, oid="C17.5"):
             "version_payload: %s" % tm.first_diff(w, want))
     fr_ = ctx.fn(P2P + "parse_version_payload")
     pay = P(fr_.params()[0], tm.BYTES)
-    for n in (0, 12, 40, 252):
+    for n in (range(0, 253) if ctx.thorough else (0, 12, 40, 252)):
         ev.bind = {tm.idx(pay, 80): n}
         s = ev.run(fr_)
         rets = s.returns()
